@@ -140,6 +140,11 @@ func (fr *faultRun) connect(name, cid string, subs ...string) (*fClient, string)
 	n0 := len(bev.admit)
 	bev.mu.Unlock()
 	act := bAct{K: cid, Clean: true, Ka: 600}
+	if name == "W1" {
+		// the witness publisher connects without a client identifier (the broker assigns one): its clean session
+		// must be gone with its connection like everybody else's
+		act.Form = "anon"
+	}
 	if (name == "P" || name == "S") && fr.wk != "" && fr.wk != "none" {
 		act.Will = bWill{On: true, T: "w/will/" + name, Pl: "w1", Q: 0}
 		if fr.wk == "big" {
@@ -542,6 +547,12 @@ func runFaults(sc *fScenario) (d string, tag string) {
 			case "post-zero-length-topic":
 				post()
 				w([]byte{0x30, 0x03, 0x00, 0x00, 'x'})
+			case "post-refused-filter":
+				post()
+				w(pkt(0x82, append([]byte{0, 5}, append(append(lp([]byte("t/#/x")), 1), append(lp([]byte("$SYS/#")), 0)...)...)))
+			case "post-unsubscribe-unknown":
+				post()
+				w(pkt(0xa2, append([]byte{0, 6}, lp([]byte("nobody/has/this"))...)))
 			}
 			if !selfCut {
 				// the property does not ask for the offender to be closed, only that nobody else is
